@@ -59,6 +59,9 @@ def same(a, b):
 
 def run(ctx):
     from oslo_utils import strutils, uuidutils
+    from vf import purity
+    _rec = purity.Recorder(strutils, ['bool_from_string', 'is_valid_boolstr', 'is_int_like', 'validate_integer', 'check_string_length', 'int_from_bool_as_string'], every=7)
+    _rec.__enter__()
     quick = ctx.quick
     ctx.assumptions += ['non-ASCII digits and full-width letters are outside the generators (Python int()/str.lower() semantics)',
                         'bool_from_string of a non-string subject goes through str(subject), as documented']
@@ -237,6 +240,8 @@ def run(ctx):
             ctx.beyond('Sentinels', {'kind': 'uuid-sentinels', 'dashed': dashed}, {'values': [a, b, a2], 'threads': sorted(set(results))},
                           '_UUIDSentinels(is_dashed=%s): one value per name violated' % dashed)
     ctx.stage('uuid-sentinels', ok=True)
+    _rec.__exit__()
+    _rec.replay(ctx, 'c14')
     # binding self-test
     saved = strutils.TRUE_STRINGS
     try:
